@@ -28,10 +28,11 @@ def send_cases(ctx):
         for cic in (0, 1, 4294967294, 77):
             for title in (cc.CLIENT_TITLE, b"\x00" * 8, b"\xff" * 8):
                 k = cc.cfg(title=title, ek=ek, ak=ak, suite=suite, pre=False)
-                msgs = [cc.aarq_v(cc.CONF_C, 65535, title, 5, cc.CHALLENGE_C, True), cc.rlrq_v(cc.CONF_C, 1200), [3, [0, None]], [3, [None, None]],
+                msgs = [cc.aarq_v(cc.CONF_C, 65535, title, 5, cc.CHALLENGE_C, True), cc.aarq_v(cc.CONF, 1200, None, None, None, False),    # also an AARQ that does not announce ciphering
+                        cc.aarq_v(cc.CONF_C, 65535, title, 1, b"12345678", False), cc.rlrq_v(cc.CONF_C, 1200), [3, [0, None]], [3, [None, None]],
                         cc.get_v(), cc.next_v(r.getrandbits(32)), cc.set_v(rb(r.choice(sizes))), cc.action_v(rb(r.choice(sizes)) or None), cc.action_v(None)]
                 for st in range(12):
-                    for m in msgs if (ctx.thorough or (suite, cic) in ((0, 0), (2, 77)) or st in (0, 2, 9)) else msgs[4:8:3]:
+                    for m in msgs if (ctx.thorough or (suite, cic) in ((0, 0), (2, 77)) or st in (0, 2, 9)) else msgs[6:10:3]:
                         conf = r.choice([cc.CONF_C, cc.CONF, [r.random() < .5 for _ in range(17)]])     # protection must not depend on the negotiated conformance
                         out.append([k, cc.cst(state=st, cic=cic, mic=5, mtitle=cc.METER_TITLE, auth=5, mchallenge=cc.CHALLENGE_M, conf=conf), [[0, m]]])
     for n in sizes:
